@@ -80,6 +80,41 @@ def r11_2(ctx):
                     key = key[0] if key else "?"
                     seen[key] = (mentions(a, lambda x: x == ("param", 2)) and not mentions(a, lambda x: x == ("param", 1)), mentions(b, lambda x: x == ("param", 1)) and not mentions(b, lambda x: x == ("param", 2)))
                     order.append((key, body_, bi))
+        # third form: one comparison of two sort keys built the same way from self and other — a tuple, or a
+        # local structure whose Ord is derived (lexicographic in declaration order); `Reverse` flips a key
+        key_form = None
+        krets = {p.end[1] for p in Sym(cmp_, copies=True).paths() if p.end[0] == "ret"}
+        if len(krets) == 1:
+            e = next(iter(krets))
+            if e[0] == "call" and e[1].endswith("::cmp") and len(e[2]) == 2 and e[2][0][0] == "agg" and e[2][1][0] == "agg" and e[2][0][1] == e[2][1][1]:
+                A, B = e[2]
+                adt = A[1]
+                names = None
+                if adt == "tuple":
+                    names = [n for n, _ in A[3]]
+                elif adt in F.adts and any(g.adt == adt and g.trait == "std::cmp::Ord" and g.name == "cmp" and g.derived for g in F.fns.values()):
+                    names = [n for n, _ in F.adt_fields(adt)]
+                if names and [n for n, _ in A[3]] and set(names) == {n for n, _ in A[3]} == {n for n, _ in B[3]}:
+                    da, db = dict(A[3]), dict(B[3])
+                    key_form = []
+                    for n in names:
+                        va, vb, flips = da[n], db[n], 0
+                        while va[0] == "agg" and vb[0] == "agg" and (va[1] or "").endswith("cmp::Reverse") and va[1] == vb[1]:
+                            va, vb, flips = va[3][0][1], vb[3][0][1], flips + 1
+                        ka = [x[2] for x in walk(va) if x[0] == "field" and x[3] == RULE]
+                        kb = [x[2] for x in walk(vb) if x[0] == "field" and x[3] == RULE]
+                        a_self = mentions(va, lambda x: x == ("param", 1)) and not mentions(va, lambda x: x == ("param", 2))
+                        b_other = mentions(vb, lambda x: x == ("param", 2)) and not mentions(vb, lambda x: x == ("param", 1))
+                        a_other = mentions(va, lambda x: x == ("param", 2)) and not mentions(va, lambda x: x == ("param", 1))
+                        b_self = mentions(vb, lambda x: x == ("param", 1)) and not mentions(vb, lambda x: x == ("param", 2))
+                        if len(ka) != 1 or ka != kb or not ((a_self and b_other) or (a_other and b_self)):
+                            key_form = None
+                            break
+                        descending = ((a_self and b_other) and flips % 2 == 1) or ((a_other and b_self) and flips % 2 == 0)
+                        key_form.append((ka[0], descending))
+        if key_form is not None:
+            for k, desc in key_form:
+                seen[k] = (desc, desc)
         for k in ("rank", "id"):
             r.ob("order:Rule::cmp:descending:%s" % k, seen.get(k) == (True, True), cmp_.site, "key `%s` is compared as other.%s.cmp(&self.%s): %s" % (k, k, k, seen.get(k)))
         # rank decides first, id breaks ties: either `if rank != Equal {return rank}; id` in one body, or
@@ -105,6 +140,10 @@ def r11_2(ctx):
                 if ib[0] is not cmp_:
                     crets = {p.end[1] for p in Sym(ib[0]).paths() if p.end[0] == "ret"}
                     ok_ret = ok_ret and len(crets) == 1 and all(e[0] == "call" and e[1].endswith("::cmp") for e in crets)
+        if key_form is not None:
+            ok_first = [k for k, _ in key_form] == ["rank", "id"]
+            ok_ret = True
+            order = [(k, cmp_, 0) for k, _ in key_form]
         r.ob("order:Rule::cmp:rank-first", ok_first, cmp_.site, "rank is compared first, id breaks ties (%s)" % [k for k, _, _ in order])
         r.ob("order:Rule::cmp:returns-comparisons", ok_ret, cmp_.site, "cmp returns the rank comparison unless Equal, else the id comparison, unchanged")
         # Route delegates to its handler, same operand order
